@@ -114,7 +114,45 @@ decreasing_by
   have h2 := length_dropWhile_le (fun c => !pySpace c) bs
   rw [h] at h1; simp at h1; omega
 
-/-! ## the specification both are compared with: split at every delimiter, drop empty pieces -/
+/-! ## bin/query's reader (util/file_piece.hh, lm/ngram_query.hh) -/
+
+/-- `FilePiece::ReadWordSameLine(word, kSpaces)` on the unread bytes: skips delimiters other than `'\n'`;
+at `'\n'` or end of input returns `none` (the `'\n'` stays unread); otherwise consumes and returns the bytes up
+to the next delimiter (or EOF), leaving the delimiter unread. -/
+def readWordSameLine (p : Nat → Bool) : Bytes → Option (Bytes × Bytes)
+  | [] => none
+  | b :: bs =>
+    if p b then (if b == 10 then none else readWordSameLine p bs)
+    else some ((b :: bs).takeWhile (fun c => !p c), (b :: bs).dropWhile (fun c => !p c))
+
+theorem readWord_rest_lt (p : Nat → Bool) (s w r : Bytes) (h : readWordSameLine p s = some (w, r)) :
+    r.length < s.length := by
+  induction s with
+  | nil => simp [readWordSameLine] at h
+  | cons b bs ih =>
+    unfold readWordSameLine at h
+    by_cases hb : p b
+    · simp only [hb, if_true] at h
+      by_cases h10 : (b == 10) = true
+      · simp [h10] at h
+      · simp only [h10] at h
+        have := ih h
+        simp; omega
+    · simp only [hb, Bool.false_eq_true, if_false, Option.some.injEq, Prod.mk.injEq] at h
+      rw [← h.2]
+      simp only [List.dropWhile, hb, Bool.not_false]
+      have := length_dropWhile_le (fun c => !p c) bs
+      simp; omega
+
+/-- the words `lm::ngram::Query` reads from one line (`while (in.ReadWordSameLine(word))`) -/
+def queryWords (p : Nat → Bool) (s : Bytes) : List Bytes :=
+  match h : readWordSameLine p s with
+  | none => []
+  | some (w, r) => w :: queryWords p r
+termination_by s.length
+decreasing_by exact readWord_rest_lt p s w r h
+
+/-! ## the specification all are compared with: split at every delimiter, drop empty pieces -/
 
 /-- split at *every* delimiter (pieces may be empty; always at least one piece) -/
 def pieces (p : Nat → Bool) : Bytes → List Bytes
@@ -240,6 +278,19 @@ def statefulTotal (s : Bytes) (bos eos : Bool) : α :=
   let r := M.statefulScores (M.start bos) (pySplit s)
   let t := M.sumProbs r.1
   if eos then M.add t (M.pyBaseScore r.2 [60, 47, 115, 62]).1 else t   -- "</s>"
+
+/-! ### bin/query -/
+
+/-- `lm::ngram::Query` on one line: the typed `FullScore` per word read (looked up with its full length),
+from `BeginSentenceState()` plus a final `</s>` when `sentence_context`, else from `NullContextState()`;
+the flag is `vocab == NotFound()` -/
+def queryFull (tbl : List Bool) (line : Bytes) (ctx : Bool) : List (Ret α × Bool) :=
+  let r := M.foldFull (M.start ctx) ((queryWords (isDelim tbl) line).map M.index)
+  if ctx then r.1 ++ [((M.fullScore r.2 M.eos).1, M.eos == 0)] else r.1
+
+/-- `float total = 0.0; total += ret.prob;` -/
+def queryTotal (tbl : List Bool) (line : Bytes) (ctx : Bool) : α :=
+  M.sumProbs ((M.queryFull tbl line ctx).map (·.1.prob))
 
 /-- `word in model` -/
 def contains (w : Bytes) : Bool := M.indexC w != 0
